@@ -167,11 +167,12 @@ const (
 	edGrow               // content + one zero byte (lengths consistent)
 	edShrink             // content minus its last byte (lengths consistent)
 	edResize             // primitive content cut or zero-extended to arg bytes (prefix kept, lengths consistent): mis-sized fields
+	edInsert             // an optional element that is absent made present: arg 0 BOOLEAN TRUE (critical flags), 1 INTEGER 1 (versions, defaults) in front of the element
 	edKinds
 )
 
 var editNames = [edKinds]string{"len+1", "len-1", "longform", "indefinite", "hugelen", "tagflip", "retag", "int-sign",
-	"lead00", "int-leadff", "delete", "dup", "swap", "nest", "empty", "grow", "shrink", "resize"}
+	"lead00", "int-leadff", "delete", "dup", "swap", "nest", "empty", "grow", "shrink", "resize", "insert"}
 
 var resizes = []int{1, 15, 16, 17, 33, 2, 8, 31, 64}
 
@@ -181,7 +182,7 @@ var retags = []byte{0x02, 0x04, 0x30, 0x05, 0x03, 0x06, 0x0c, 0x31}
 
 const retagsQuick, resizesQuick = 4, 5
 
-var editArgs = [edKinds]int{1, 1, 1, 1, 2, 5, len(retags), 1, 2, 1, 1, 1, 1, 3, 1, 1, 1, len(resizes)}
+var editArgs = [edKinds]int{1, 1, 1, 1, 2, 5, len(retags), 1, 2, 1, 1, 1, 1, 3, 1, 1, 1, len(resizes), 2}
 
 // editsPerNode is the number of (kind, arg) pairs tried at every node.
 var editsPerNode int
@@ -216,6 +217,11 @@ func emitForest(ns []*node, ed *edit, ok *bool) []byte {
 				e := emitNode(n, nil, ok)
 				out = append(out, e...)
 				out = append(out, e...)
+				continue
+			case edInsert:
+				*ok = true
+				out = append(out, [][]byte{{0x01, 0x01, 0xff}, {0x02, 0x01, 0x01}}[ed.arg]...)
+				out = append(out, emitNode(n, nil, ok)...)
 				continue
 			case edSwap:
 				if i+1 < len(ns) {
